@@ -1,6 +1,9 @@
 //! pvh: runs the real postcard crates on generated inputs, evaluates each property's
 //! direct oracle on the implementation and writes the cases for the model comparison.
+mod crcs;
 mod dynval;
+mod mem;
+mod refimpl;
 mod gen;
 mod out;
 mod prng;
@@ -18,6 +21,9 @@ pub struct Args {
     pub replay: Option<String>,
     pub extra: HashMap<String, String>,
 }
+
+#[global_allocator]
+static GLOBAL: mem::Counting = mem::Counting;
 
 fn main() {
     let mut it = std::env::args().skip(1);
